@@ -189,6 +189,54 @@ def build_fixed(kind, md):
     raise ValueError(kind)
 
 
+RELOAD_OPS = ["add_circle", "without", "intersect", "symmetric_difference", "union", "query"]
+
+
+def reload_histories(ctx):
+    """a saved file is loaded again after the object loaded from it earlier was changed: every ordered pair of RELOAD_OPS,
+    load - op1 - load - op2 - load; every load must reproduce what was SAVED (and hand out an independent object)"""
+    tmp = os.environ["VERIF_SCRATCH"]
+    for md in (5, 7):
+        saved, model = build_fixed("circle", md)
+        other = Region(maxdepth=md)
+        other.add_circles(1.05, -0.45, min(0.3, 200 * hp.nside2resol(2 ** md)))
+        extra = (4.0, 0.6, min(0.2, 100 * hp.nside2resol(2 ** md)))
+        f = os.path.join(tmp, "reload_%d_%d.mim" % (md, os.getpid()))
+        saved.save(f)
+
+        def apply(reg, op):
+            if op == "add_circle":
+                reg.add_circles(*extra)
+            elif op == "query":
+                reg.sky_within(0.1, 0.1)
+            elif op == "union":
+                reg.union(copy.deepcopy(other))
+            else:
+                getattr(reg, op)(copy.deepcopy(other))
+        for op1 in RELOAD_OPS:
+            for op2 in RELOAD_OPS:
+                ctx.count("reload_histories")
+                sig = "reload@%d:%s,%s" % (md, op1, op2)
+                try:
+                    a = Region.load(f)
+                    apply(a, op1)
+                    b = Region.load(f)
+                    ok_b = set(int(p) for p in copy.deepcopy(b).get_demoted()) == set(model)
+                    apply(b, op2)
+                    c = Region.load(f)
+                    ok_c = set(int(p) for p in copy.deepcopy(c).get_demoted()) == set(model)
+                    distinct = (a is not b) and (b is not c) and (a is not c)
+                except Exception as e:
+                    ctx.violation("load / %s / load / %s / load raised %r" % (op1, op2, e), "reload_raise|" + sig, clause="reload", case=dict(md=md, op1=op1, op2=op2))
+                    continue
+                if not (ok_b and ok_c and distinct):
+                    ctx.violation("loading a saved region again after the earlier loaded object was changed (%s, then %s) does not reproduce the saved "
+                                  "region: second load %s, third load %s, independent objects %s (depth %d)" % (
+                                      op1, op2, "ok" if ok_b else "DIFFERS", "ok" if ok_c else "DIFFERS", distinct, md),
+                                  "reload|" + sig, clause="reload", case=dict(md=md, op1=op1, op2=op2))
+        os.remove(f)
+
+
 def cli_conversions(ctx):
     import logging
     from AegeanTools.CLI import MIMAS as cli
@@ -289,6 +337,7 @@ def main(tier, seed, t0):
                               case=dict(kind=kind, maxdepth=md, variant=variant))
     # the MIMAS command line conversions (--mim2fits, --mim2reg) on regions before and after a demoting query
     cli_conversions(ctx)
+    reload_histories(ctx)
     ctx.evaluations = len(results) + 2 * len(fixed_regions(tier))
     ctx.nontrivial_counted = len(results) + len(fixed_regions(tier))
     ctx.samples = [dict(history=h) for h in res.samples] + [dict(fixed=fixed_regions(tier)[5][0])]
@@ -310,6 +359,8 @@ def main(tier, seed, t0):
 
 def evaluate(clause, case, ctx):
     tmp = os.environ.get("VERIF_SCRATCH", "/dev/shm")
+    if clause == "reload":
+        return reload_histories(ctx)
     if clause == "history":
         sysm = regsys.RegionSystem()
         st = sysm.init()
